@@ -28,7 +28,8 @@ CheckCall(e, c) ==
      ELSE IF e.ncalls # 1 THEN "not_one_evaluator_call"
      ELSE IF e.reqkind # need.kind THEN "wrong_request_kind"
      ELSE IF ~RowsExactlyOnce(seen, need.rows) THEN "rows_not_each_exactly_once"
-     ELSE IF \E i \in 1..n : \E v \in 1..2 : ~(e.ovars[i][v].k = "q" /\ ObsEq(e.uvars[i][v], UserOf(e.ovars[i][v], v, e.tf)))
+     \* (point 3 is a non-dyadic neighbour of point 1, used for the request-kind clause only)
+     ELSE IF e.pt # 3 /\ \E i \in 1..n : \E v \in 1..2 : ~(e.ovars[i][v].k = "q" /\ ObsEq(e.uvars[i][v], UserOf(e.ovars[i][v], v, e.tf)))
           THEN "row_variables_not_user_domain"
      \* every reported per-realization value is the one returned for the row with that label
      ELSE IF \E i \in 1..Len(e.values) : LET x == e.values[i] IN
